@@ -8,6 +8,7 @@ import (
 	"fmt"
 	"reflect"
 	"strings"
+	"time"
 
 	"github.com/samsarahq/go/oops"
 	"github.com/samsarahq/thunder/batch"
@@ -66,7 +67,9 @@ func NewDB(conn *sql.DB, schema *Schema) *DB {
 			// First, build the SQL query.
 			filters := make([]Filter, 0, len(items))
 			for _, item := range items {
-				filters = append(filters, item.(*BaseSelectQuery).Filter)
+				// Send the values the columns are stored as, like a query on its own does
+				// (self-serialising types, unsigned and named types, pointers).
+				filters = append(filters, table.comparableValues(item.(*BaseSelectQuery).Filter))
 			}
 			clause, args := makeBatchQuery(filters)
 			query, err := db.Schema.makeSelect(table.Type, nil, &SelectOptions{
@@ -153,6 +156,10 @@ func (t *Table) comparableValues(m map[string]interface{}) map[string]interface{
 			continue
 		}
 		if dv, err := column.Descriptor.Valuer(reflect.ValueOf(v)).Value(); err == nil {
+			if t, ok := dv.(time.Time); ok {
+				// One instant, one value: drop the location and the monotonic reading.
+				dv = t.Round(0).UTC()
+			}
 			c[k] = dv
 		}
 	}
